@@ -209,10 +209,11 @@ Print Assumptions C12_realcap_reserves_others.
 
 (* audit W2: the literal clause "deserved <= capability" is false when guarantee > capability ... *)
 Theorem C12_deserved_le_capability_refuted :
-  exists total ss fuel D q c,
+  exists total ss fuel D q s c,
     vnonneg total /\ Forall spec_ok ss /\
     In q (out_qs (proportion fuel D total ss)) /\
-    cnth (q_rcap q) 0 = Some c /\ c < val0 (cnth (q_des q) 0).
+    In s ss /\ q_gua q = base_some (s_gua s) /\ s_cap s = Some c /\
+    cnth c 0 = Some 5 /\ 5 < val0 (cnth (q_des q) 0).
 Proof. exact deserved_le_capability_refuted. Qed.
 Print Assumptions C12_deserved_le_capability_refuted.
 
@@ -230,6 +231,43 @@ Theorem C12_realcap_le_capability : forall total tg g c i y,
   val0 (cnth (real_cap total tg g (Some c)) i) <= y.
 Proof. exact realcap_le_capability. Qed.
 Print Assumptions C12_realcap_le_capability.
+
+(* SECOND AUDIT N1 - CLAUSE 2 AT FULL STRENGTH, stated on DESERVED (a missing cell is not "no
+   obligation"): on every well-formed session, for every queue record the loop returns and every
+   dimension the cluster has,
+     deserved <= max(own guarantee, total - guarantees of all OTHER queues of the session)
+     deserved <= own capability, wherever that is bounded and not below the own guarantee.
+   True for the code after fix 019e7c9 (realCapability keeps every dimension of the cluster);
+   before it a scalar whose total was used up by guarantees vanished from realCapability and the
+   queue was unbounded there (corpus/C12/unreserved-scalar-unbounded.jsonl). *)
+Theorem C12_realcap_present : forall total tg g cap i t,
+  cnth total i = Some t -> exists c, cnth (real_cap total tg g cap) i = Some c.
+Proof. exact rcap_present. Qed.
+Print Assumptions C12_realcap_present.
+
+Theorem C12_proportion_clause2 : forall total ss fuel D,
+  vnonneg total -> Forall spec_ok ss ->
+  Forall (fun q => exists s, In s ss /\ q_gua q = base_some (s_gua s) /\
+    forall i t, cnth total i = Some t ->
+      let g := val0 (cnth (s_gua s) i) in
+      let S := qsumf (fun s' => val0 (cnth (s_gua s') i)) ss in
+      val0 (cnth (q_des q) i) <= qmax g (t - (S - g))
+      /\ (forall c y, s_cap s = Some c -> cnth (cap_norm (base_some c)) i = Some y -> g <= y ->
+                      val0 (cnth (q_des q) i) <= y))
+    (out_qs (proportion fuel D total ss)).
+Proof. exact proportion_clause2. Qed.
+Print Assumptions C12_proportion_clause2.
+
+Theorem C12_capacity_clause2 : forall total ss s i t,
+  vnonneg total -> Forall spec_ok ss -> In s ss -> cnth total i = Some t ->
+  let d := snd (capacity_des total (total_guarantee ss) s) in
+  let g := val0 (cnth (s_gua s) i) in
+  let S := qsumf (fun s' => val0 (cnth (s_gua s') i)) ss in
+  val0 (cnth d i) <= qmax g (t - (S - g))
+  /\ (forall c y, s_cap s = Some c -> cnth (cap_norm (base_some c)) i = Some y -> g <= y ->
+                  val0 (cnth d i) <= y).
+Proof. exact capacity_clause2. Qed.
+Print Assumptions C12_capacity_clause2.
 
 (* audit W5: the capacity plugin's clamp (flat queues) *)
 Theorem C12_capacity_des_bounds : forall total tg s i,
@@ -277,7 +315,9 @@ Print Assumptions C12_law_sum_iff.
 
 Theorem C12_law_reserve_sound : forall D total tg os,
   law_reserve false D total tg os = true ->
-  Forall (fun o => forall j c, (j < D)%nat -> cnth (o_rcap o) j = Some c ->
+  Forall (fun o => forall j, (j < D)%nat ->
+            (forall t, cnth total j = Some t -> cnth (o_rcap o) j <> None)
+            /\ forall c, cnth (o_rcap o) j = Some c ->
             c <= qmax 0 (val0 (cnth total j) - val0 (cnth tg j)) + val0 (cnth (o_gua o) j) + slack) os.
 Proof. exact law_reserve_sound. Qed.
 Print Assumptions C12_law_reserve_sound.
@@ -301,13 +341,46 @@ Proof. exact law_rounds_iff. Qed.
 Print Assumptions C12_law_rounds_iff.
 
 Theorem C12_law_bounds_accepts_model : forall D q,
-  upper_ok q -> lower_ok q -> law_bounds_q D (obs_of q) = true.
+  upper_ok q -> lower_ok q ->
+  (forall j, cnth (q_rcap q) j = None -> val0 (cnth (q_des q) j) <= val0 (cnth (q_gua q) j)) ->
+  law_bounds_q D (obs_of q) = true.
 Proof. exact law_bounds_q_accepts_model. Qed.
 Print Assumptions C12_law_bounds_accepts_model.
+
+Theorem C12_law_runs_identical_iff : forall D ab,
+  law_runs_identical D ab = true <->
+  Forall (fun p : obs * obs => forall j, (j < D)%nat ->
+            close (val0 (cnth (o_des (fst p)) j)) (val0 (cnth (o_des (snd p)) j)) = true) ab.
+Proof. exact law_runs_identical_iff. Qed.
+Print Assumptions C12_law_runs_identical_iff.
+
+Theorem C12_law_runs_agree_sound : forall D ab,
+  law_runs_agree D ab = true ->
+  Forall (fun p : obs * obs => forall j, (j < D)%nat ->
+            qabs (val0 (cnth (o_des (fst p)) j) - val0 (cnth (o_des (snd p)) j)) <= eps + slack) ab.
+Proof. exact law_runs_agree_sound. Qed.
+Print Assumptions C12_law_runs_agree_sound.
+
+Theorem C12_law_capability_sound : forall D total qs,
+  law_capability D total qs = true ->
+  Forall (fun q : vec * vec * vec => let '(cap, g, d) := q in
+            forall j t y, (j < D)%nat -> cnth total j = Some t -> cnth cap j = Some y ->
+                          val0 (cnth g j) <= y -> val0 (cnth d j) <= y + slack) qs.
+Proof. exact law_capability_sound. Qed.
+Print Assumptions C12_law_capability_sound.
+
+Theorem C12_law_order_excused_iff : forall D r ab,
+  law_order_excused D r ab = true <->
+  law_runs_identical D ab = true \/ (r = false /\ max_dev_ok D ab = true).
+Proof. exact law_order_excused_iff. Qed.
+Print Assumptions C12_law_order_excused_iff.
 
 (* non-vacuity on a session where guarantee, capability and demand interact (audit W8) *)
 Example C12_example_session_ok : vnonneg ex_total /\ Forall spec_ok ex_specs.
 Proof. exact ex_ok. Qed.
+(* the guard of the capability clause is satisfiable: the example session meets it *)
+Example C12_example_session_guard : Forall gua_le_cap ex_specs.
+Proof. exact ex_guard. Qed.
 Example C12_example_session_result :
   match proportion 10 4 ex_total ex_specs with
   | Done [q1; q2] _ n =>
